@@ -14,6 +14,9 @@ package main
 
 import (
 	"bufio"
+	"strings"
+	"sync"
+	"sync/atomic"
 	"encoding/json"
 	"flag"
 	"fmt"
@@ -23,6 +26,7 @@ import (
 	"reflect"
 	"sort"
 
+	"github.com/dominant-strategies/go-quai/core/vm"
 	"github.com/dominant-strategies/go-quai/log"
 	"github.com/dominant-strategies/go-quai/params"
 )
@@ -163,6 +167,106 @@ func readBehaviours(path string) [][]*Step {
 	return out
 }
 
+type behResult struct {
+	mism     *Mismatch
+	devs     []DevHit
+	actions  map[string]int
+	ntx, nev int
+	herr     string
+	incon    string
+}
+
+// replayOne executes one specification behaviour on a fresh real state and compares every step
+func replayOne(bi int, beh []*Step, verbose bool) (r behResult) {
+	r.actions = map[string]int{}
+	if len(beh) == 0 || beh[0].Pre == nil {
+		r.herr = fmt.Sprintf("behaviour %d has no pre-state", bi)
+		return
+	}
+	txs, exp, err := parseBehaviour(beh)
+	if err != nil {
+		r.herr = fmt.Sprintf("behaviour %d: %v", bi, err)
+		return
+	}
+	w := newWorld(beh[0].Pre)
+	base := 0
+	for ti, tx := range txs {
+		events, err := w.runTx(tx)
+		if err != nil {
+			r.herr = fmt.Sprintf("behaviour %d tx %d: %v", bi, ti, err)
+			return
+		}
+		r.ntx++
+		if verbose {
+			for _, e := range events {
+				b, _ := json.Marshal(e)
+				fmt.Println(string(b))
+			}
+		}
+		wrap := false
+		for _, e := range exp[ti] {
+			if e.Dev == "prefork-wrap" {
+				wrap = true
+			}
+		}
+		for i, e := range exp[ti] {
+			var g *Step
+			if i < len(events) {
+				g = events[i]
+			}
+			r.nev++
+			r.actions[e.A]++
+			if g != nil && wrap && e.A == "txend" && len(g.Nat) > 13 && g.Nat[:13] == "value-created" {
+				// the native bound counts the 2^256-1 carried by an ETX whose debit wrapped before the fork: that IS the
+				// named deviation "prefork-wrap" (reported at the operation); it is not a second violation
+				g.Nat = "ok"
+			}
+			why := compare(e, g, tx)
+			if why == "" && i == len(exp[ti])-1 && len(events) > len(exp[ti]) {
+				why = fmt.Sprintf("implementation produced %d extra event(s), first %q", len(events)-len(exp[ti]), events[len(exp[ti])].A)
+			}
+			if why != "" {
+				if g != nil && g.A == "fail" && e.A != "fail" && strings.Contains(g.Note+noteOf(events, i), "out of gas") {
+					// the specification does not model gas inside a transaction: a frame that ran out of the gas the driver
+					// allotted cannot be compared any further
+					r.incon = fmt.Sprintf("behaviour %d step %d: frame ran out of gas where the specification has %q", bi, base+i, e.A)
+					return
+				}
+				m := Mismatch{Behaviour: bi, Step: base + i, Reason: why, Action: e.A, Expected: e, Got: g, Steps: beh}
+				if e.Dev != "" && e.Dev != "-" {
+					m.Op, m.Exit = e.A, e.Dev
+				}
+				r.mism = &m
+				return
+			}
+			if e.Dev != "" && e.Dev != "-" {
+				// the implementation reproduced a named deviation of the specification
+				r.devs = append(r.devs, DevHit{Op: e.A, Exit: e.Dev, Count: 1, Behaviour: bi, Step: base + i, Aon: g.Aon, Steps: beh})
+			}
+		}
+		// the specification's gasUsed is an arbitrary choice: continue from its post-state
+		last := exp[ti][len(exp[ti])-1]
+		if last.A == "txend" && ti+1 < len(txs) && tx.Kind != "inbound" {
+			if _, ok := w.addr[last.X]; ok {
+				ia := w.internal(last.X)
+				if w.statedb.GetCodeSize(ia) == 0 && w.statedb.Exist(ia) {
+					w.statedb.SetBalance(ia, big.NewInt(last.Obs.Bal[last.X]))
+					w.statedb.Finalize(false)
+				}
+			}
+		}
+		base += len(exp[ti])
+	}
+	return
+}
+
+func noteOf(events []*Step, i int) string {
+	if i < len(events) {
+		return events[i].Note
+	}
+	return ""
+}
+
 func cmdReplay(args []string) {
 	fs := flag.NewFlagSet("replay", flag.ExitOnError)
 	in := fs.String("in", "", "behaviours ndjson")
@@ -170,83 +274,65 @@ func cmdReplay(args []string) {
 	maxMis := fs.Int("maxmis", 40, "")
 	minconv := fs.Int64("minconv", 2000000, "params.MinQuaiConversionAmount to install")
 	verbose := fs.Bool("v", false, "print the implementation's events")
+	workers := fs.Int("workers", 8, "")
 	fs.Parse(args)
 	setup(*minconv)
 	behs := readBehaviours(*in)
+	if *verbose {
+		*workers = 1
+	}
+	results := make([]behResult, len(behs))
+	var wg sync.WaitGroup
+	next := int64(-1)
+	for k := 0; k < *workers; k++ {
+		wg.Add(1)
+		go func() {
+			defer wg.Done()
+			for {
+				bi := int(atomic.AddInt64(&next, 1))
+				if bi >= len(behs) {
+					return
+				}
+				results[bi] = replayOne(bi, behs[bi], *verbose)
+			}
+		}()
+	}
+	wg.Wait()
 	var mism []Mismatch
 	devs := map[string]*DevHit{}
 	actions := map[string]int{}
 	ntx, nev, nskip := 0, 0, 0
-	var harnessErrs []string
-	for bi, beh := range behs {
-		if len(beh) == 0 || beh[0].Pre == nil {
-			must(fmt.Errorf("behaviour %d has no pre-state", bi))
+	var harnessErrs, incon []string
+	for _, r := range results {
+		ntx += r.ntx
+		nev += r.nev
+		for k, v := range r.actions {
+			actions[k] += v
 		}
-		txs, exp, err := parseBehaviour(beh)
-		if err != nil {
-			must(fmt.Errorf("behaviour %d: %v", bi, err))
+		if r.herr != "" {
+			if i := strings.Index(r.herr, "\n"); i > 0 && len(harnessErrs) > 2 {
+				r.herr = r.herr[:i]
+			}
+			harnessErrs = append(harnessErrs, r.herr)
 		}
-		w := newWorld(beh[0].Pre)
-		base := 0
-	txloop:
-		for ti, tx := range txs {
-			events, err := w.runTx(tx)
-			if err != nil {
-				harnessErrs = append(harnessErrs, fmt.Sprintf("behaviour %d tx %d: %v", bi, ti, err))
-				break
+		if r.incon != "" {
+			incon = append(incon, r.incon)
+		}
+		if r.mism != nil {
+			if len(mism) < *maxMis {
+				mism = append(mism, *r.mism)
+			} else {
+				nskip++
 			}
-			ntx++
-			if *verbose {
-				for _, e := range events {
-					b, _ := json.Marshal(e)
-					fmt.Println(string(b))
-				}
+		}
+		for _, d := range r.devs {
+			k := d.Op + "/" + d.Exit
+			if h, ok := devs[k]; ok {
+				h.Count++
+			} else {
+				dd := d
+				devs[k] = &dd
 			}
-			for i, e := range exp[ti] {
-				var g *Step
-				if i < len(events) {
-					g = events[i]
-				}
-				nev++
-				actions[e.A]++
-				why := compare(e, g, tx)
-				if why == "" && i == len(exp[ti])-1 && len(events) > len(exp[ti]) {
-					why = fmt.Sprintf("implementation produced %d extra event(s), first %q", len(events)-len(exp[ti]), events[len(exp[ti])].A)
-				}
-				if why != "" {
-					if len(mism) < *maxMis {
-						m := Mismatch{Behaviour: bi, Step: base + i, Reason: why, Action: e.A, Expected: e, Got: g, Steps: beh}
-						if e.Dev != "" && e.Dev != "-" {
-							m.Op, m.Exit = e.A, e.Dev
-						}
-						mism = append(mism, m)
-					} else {
-						nskip++
-					}
-					break txloop
-				}
-				if e.Dev != "" && e.Dev != "-" {
-					// the implementation reproduced a named deviation of the specification
-					k := e.A + "/" + e.Dev
-					if h, ok := devs[k]; ok {
-						h.Count++
-					} else {
-						devs[k] = &DevHit{Op: e.A, Exit: e.Dev, Count: 1, Behaviour: bi, Step: base + i, Aon: g.Aon, Steps: beh}
-					}
-				}
-			}
-			// the specification's gasUsed is an arbitrary choice: continue from its post-state
-			last := exp[ti][len(exp[ti])-1]
-			if last.A == "txend" && ti+1 < len(txs) && tx.Kind != "inbound" {
-				if _, ok := w.addr[last.X]; ok {
-					ia := w.internal(last.X)
-					if w.statedb.GetCodeSize(ia) == 0 && w.statedb.Exist(ia) {
-						w.statedb.SetBalance(ia, big.NewInt(last.Obs.Bal[last.X]))
-						w.statedb.Finalize(false)
-					}
-				}
-			}
-			base += len(exp[ti])
 		}
 	}
 	var dl []*DevHit
@@ -255,7 +341,7 @@ func cmdReplay(args []string) {
 	}
 	sort.Slice(dl, func(i, j int) bool { return dl[i].Op+dl[i].Exit < dl[j].Op+dl[j].Exit })
 	res := map[string]interface{}{"behaviours": len(behs), "txs": ntx, "events_compared": nev, "mismatches": mism, "mismatches_not_listed": nskip,
-		"deviations_reproduced": dl, "actions": actions, "harness_errors": harnessErrs}
+		"deviations_reproduced": dl, "actions": actions, "harness_errors": harnessErrs, "inconclusive_gas": incon}
 	b, _ := json.MarshalIndent(res, "", " ")
 	must(os.WriteFile(*out, b, 0o644))
 }
@@ -264,6 +350,10 @@ func setup(minconv int64) {
 	log.Global.SetOutput(io.Discard)
 	setForks()
 	params.MinQuaiConversionAmount = big.NewInt(minconv)
+	vm.InitializePrecompiles(loc)
+	for _, n := range []string{"E1", "E2", "E3"} {
+		eoaKey(n)
+	}
 }
 
 func cmdParams() {
